@@ -21,10 +21,10 @@ theorem pushValue_law (nc : NumCode F) {st : BState} (hinv : BInv st) {a : Nat}
       valsOf (st.store.cells.push c) (some st.store.cells.size) =
         a :: valsOf st.store.cells st.store.currentValue →
       (∀ p v, c = Cell.register p v → False) →
-      (∀ p r, (c = Cell.frame p r ∨ c = Cell.frameRegister r) → False) →
+      (∀ p r, (c = Cell.frame p r ∨ c = Cell.frameRegister r) → False) → frameKind c = false →
       ∃ st', (basicRStore nc).pushValueStack a st = .ok ((), st') ∧
         Eff (basicRStore nc) st st' ((basicRStore nc).regs st) (a :: (basicRStore nc).vals st) ∧ BInv st' := by
-    intro c hop hvals hcreg hcfr
+    intro c hop hvals hcreg hcfr hnf
     obtain ⟨s1, hp, hcells, hfit⟩ := push_total c hinv.fits
     obtain ⟨_, _, hf⟩ := push_ok hp
     have hopr := hop s1 _ hp
@@ -37,12 +37,12 @@ theorem pushValue_law (nc : NumCode F) {st : BState} (hinv : BInv st) {a : Nat}
       rw [hcells]; exact hvals
     · exact frames_sub (s' := { s1 with currentValue := some st.store.cells.size }) hinv hsub hf.2.2.2.2.2
     · refine binv_push_cell hinv (c := c) hcells hw ⟨by simpa using hfit.1, hfit.2⟩ ?_
-        (fun p v h => (hcreg p v h).elim) (fun p r h => (hcfr p r h).elim)
+        (fun p v h => (hcreg p v h).elim) (fun p r h => (hcfr p r h).elim) hf.2.2.2.2.2 hnf
       intro x hx
       exact Or.inl (by rw [← hf.2.2.2.2.1]; exact hx)
   cases hcur : st.store.currentValue with
   | none =>
-    refine key (.valueRoot a) ?_ ?_ ?_ ?_
+    refine key (.valueRoot a) ?_ ?_ ?_ ?_ rfl
     · intro s1 i hp; simp [Store.pushValue, hcur, hp, bind, Outcome.bind, pure]
     · rw [valsOf_root (v := a) (by simp), hcur]; rfl
     · intro p v h; cases h
@@ -51,7 +51,7 @@ theorem pushValue_law (nc : NumCode F) {st : BState} (hinv : BInv st) {a : Nat}
     have hps := hinv.wfq.val
     rw [hcur] at hps
     have hplt : p < st.store.cells.size := svAt_lt hps
-    refine key (.value p a) ?_ ?_ ?_ ?_
+    refine key (.value p a) ?_ ?_ ?_ ?_ rfl
     · intro s1 i hp; simp [Store.pushValue, hcur, hp, bind, Outcome.bind, pure]
     · rw [valsOf_value (p := p) (v := a) (by simp) hplt, hcur]
       congr 1
@@ -70,7 +70,8 @@ theorem popValue_law (nc : NumCode F) {st : BState} (hinv : BInv st) :
         ((basicRStore nc).regs st) (valsOf st.store.cells o) ∧
       BInv { st with store := { st.store with currentValue := o } } := fun o ho =>
     ⟨⟨⟨fun _ _ h => h, rfl, rfl, rfl, rfl⟩, rfl, rfl, rfl, rfl⟩,
-      hinv.wfq.withHeads _ o _ hinv.wfq.reg ho hinv.wfq.frm, hinv.fits, hinv.regHead, hinv.regPrev, hinv.frameSaved⟩
+      hinv.wfq.withHeads _ o _ hinv.wfq.reg ho hinv.wfq.frm, hinv.fits, hinv.regHead, hinv.regPrev, hinv.frameSaved,
+      ⟨hinv.ftyped.head, hinv.ftyped.prev, hinv.ftyped.reg⟩⟩
   have hpop : (basicRStore nc).popValueStack st =
       .ok ((st.store.popValue).2, { st with store := (st.store.popValue).1 }) := rfl
   cases hcur : st.store.currentValue with
